@@ -189,3 +189,21 @@ def safely(res, rule, site, fn, *args, **kwargs):
         res.ob(rule, site, 'undecided: construct not modelled', True, str(e))
         res.notes.append('%s %s: undecided - %s' % (rule, site, e))
         return None
+
+
+def borrow(res, rule, what, fn, *args, **kwargs):
+    """Cross-property borrowing: run rule group ``fn`` of another property into a scratch Result and re-emit its obligations and
+    findings under ``rule`` of this property.  An analysis problem inside the borrowed group leaves the rule undecided here
+    (the owning property reports it)."""
+    from .report import Result
+    from .model import AnalysisError
+    from .absint import Unmodelled
+    tmp = Result(res.prop)
+    try:
+        fn(*args, res=tmp, **kwargs) if kwargs.pop('_kw', False) else fn(tmp, *args)
+    except (AnalysisError, Unmodelled) as e:
+        res.ob(rule, what, 'borrowed rule group', True, 'undecided: %s' % e)
+        res.notes.append('%s.%s (%s): undecided: %s' % (res.prop, rule, what, e))
+        return None
+    res.absorb(rule, tmp)
+    return tmp
